@@ -8,6 +8,7 @@ bind  : spec -> code: every TLC state is replayed on the real classes and compar
         code -> spec: seeded random calls of the real code are projected to Gaussian integers and validated by TLC
 """
 import copy
+import os
 import random
 import warnings
 import numpy as np
@@ -148,7 +149,7 @@ def check_c05(rep, thorough):
                 ("c05_rotate_3", ["Rotate"], dict(OPS='{"Rotate"}', NWS="{3}", KDIRS=1, MAXHOPS=1, NEPS=1, NCEN=2, PHS="{0, 1}"), 60),
                 ("c05_chain", ["Reorder", "Rotate"], dict(OPS='{"Reorder", "Rotate"}', MAXLEN=2, NWS="{2}", KDIRS=2, MAXHOPS=1, NEPS=1, NCEN=1, PHS="{1, 2}"), 80)]
     else:
-        cfgs = [("c05_reorder", ["Reorder"], dict(OPS='{"Reorder"}', NWS="{1, 2}", MAXHOPS=1, NEPS=2, NCEN=2, WITHX="{FALSE, TRUE}"), 25),
+        cfgs = [("c05_reorder", ["Reorder"], dict(OPS='{"Reorder"}', NWS="{1, 2}", MAXHOPS=1, NEPS=1, NCEN=2, WITHX="{FALSE, TRUE}"), 25),
                 ("c05_rotate", ["Rotate"], dict(OPS='{"Rotate"}', NWS="{2}", MAXHOPS=1, NEPS=1, NCEN=3, PHS="{0, 1}", WITHX="{FALSE}"), 30),
                 ("c05_chain", ["Reorder", "Rotate"], dict(OPS='{"Reorder", "Rotate"}', MAXLEN=2, NWS="{2}", KDIRS=1, MAXHOPS=1, NEPS=1, NCEN=1, PHS="{1}"), 40)]
     for name, classes, kw, every in cfgs:
@@ -164,7 +165,7 @@ def check_c05(rep, thorough):
 
     # ---- code -> spec
     recs = []
-    nrec = 400 if thorough else 40
+    nrec = 400 if thorough else 24
     for i in range(nrec):
         a = RND.rand_sys(rng, rmax=rng.choice([1, 1, 2]), nw=rng.choice([2, 3, 3]))
         try:
@@ -209,6 +210,9 @@ def check_c05(rep, thorough):
         if dev > 1e-6:
             rep.violation("rotate_all_R_matrices:evaluate_k:numeric", dict(sys=W.sys_json(a), deviation=dev))
     rep.part("numeric_only", random_unitary_cases=nn, max_deviation=maxdev, tolerance=1e-6)
+    import shutil
+    from ..common import WORK
+    shutil.rmtree(os.path.join(WORK, "sysalg_run"), ignore_errors=True)          # files written by run()
     return rep.finish()
 
 
